@@ -255,7 +255,8 @@ def r2b_visit_semantics(P, rep, ctx):
 def r3_kwargs_agree(P, rep, ctx):
     mc = P.func(f"{W}.MetadorGroup.copy")
     d = local_defs(mc)
-    ck = [v for k, v in d.get("copy_kwargs", []) if v is not None]
+    star = {k.value.id for c in local_calls(mc.node) if call_attr(c) == "copy" and isinstance(c.func, ast.Attribute) and "__wrapped__" in norm(c.func.value) for k in c.keywords if k.arg is None and isinstance(k.value, ast.Name)}
+    ck = [v for nm_ in star for k, v in d.get(nm_, []) if v is not None]
     if len(ck) != 1 or not isinstance(ck[0], ast.Dict):
         raise AnalysisError("C09.R3: copy_kwargs literal not found")
     passed = {k.value for k in ck[0].keys if isinstance(k, ast.Constant)}
